@@ -343,7 +343,8 @@ fr3_step_pubhdr!(fr3_step_pubhdr, 8);
 fr3_step_payload!(fr3_step_payload, 8);
 
 vharness! {
-    //@ props: C02
+    //@ props: C02 C10
+    //@ twin_replay: yes
     //@ tier: quick
     //@ stubs: yes
     //@ expect: fail
